@@ -49,12 +49,15 @@ structure Cfg where
   cloneRegsByValue : Bool
   /-- `extend_schema` carries the `resolvers` / `subscriptions` registries over (T8); `false`: the result's are empty -/
   extKeepRegs : Bool
+  /-- `_extend_scalar_type` / `_extend_enum_type` COPY the type object (`copy.copy`: an instance of a `ScalarType` /
+      `EnumType` subclass keeps its class, T9); `false`: they rebuild a plain `ScalarType(...)` / `EnumType(...)` -/
+  extLeafCopied : Bool
   deriving Repr, DecidableEq
 
 /-- the code with every proposed fix applied -/
-def Cfg.fixed : Cfg := ⟨true, true, true, true, true, true, true, true, true, true, true, true, true, true, true, true, true, true, true⟩
+def Cfg.fixed : Cfg := ⟨true, true, true, true, true, true, true, true, true, true, true, true, true, true, true, true, true, true, true, true⟩
 /-- the code of the unchanged tree (snapshot 2541ded) -/
-def Cfg.legacy : Cfg := ⟨false, false, false, false, false, false, false, false, false, false, false, false, false, false, false, true, false, false, false⟩
+def Cfg.legacy : Cfg := ⟨false, false, false, false, false, false, false, false, false, false, false, false, false, false, false, true, false, false, false, false⟩
 
 /-- the fixed code, except that `clone` copies the registries shallowly (the class of a seeded change) -/
 def Cfg.shallowRegs : Cfg := { Cfg.fixed with cloneRegsDeep := false }
